@@ -82,8 +82,21 @@ Outcome runStats(const Plan & p, Ctx & c)
       }
       return Outcome::pass();
     };
+  uint64_t opNo = 0;
+  std::unique_ptr<romea::core::OnlineAverage> sibling; romea::core::OnlineVariance * siblingVar = nullptr;
+  bool haveSibling = false, sibAvail = false; double sibAvg = 0, sibVar = 0;
+  auto sameD = [](double a, double b) {return (std::isnan(a) && std::isnan(b)) || a == b;};
+  auto checkSibling = [&]() -> Outcome {
+      if (!haveSibling) {return Outcome::pass();}
+      SIM_PROBE("original_checked_after_its_copy_was_fed");
+      if (!sameD(sibling->getAverage(), sibAvg) || sibling->isAvailable() != sibAvail || (siblingVar && !sameD(siblingVar->getVariance(), sibVar))) {
+        return Outcome::fail("original-changed-through-its-copy", fmt("after op #%llu on a copy, the object it was copied from reports average %.17g (was %.17g), available %d (was %d)",
+                 (unsigned long long)opNo, sibling->getAverage(), sibAvg, sibling->isAvailable(), sibAvail));
+      }
+      return Outcome::pass();
+    };
   std::deque<double> win;      // the model: last W samples since the last reset
-  uint64_t sinceReset = 0, totalUpdates = 0, opNo = 0;
+  uint64_t sinceReset = 0, totalUpdates = 0;
   bool lastWasReset = false, everReset = false;
 
   auto observe = [&](const char * after) -> Outcome {
@@ -153,13 +166,19 @@ Outcome runStats(const Plan & p, Ctx & c)
   {Outcome o = observe("construction"); if (!o.ok) {return o;}}
   for (const Op & op : p.ops) {
     ++opNo;
-    if (op.kind != 2) {Outcome ob = checkBystander(); if (!ob.ok) {return ob;}}
+    if (op.kind != 2) {Outcome ob = checkBystander(); if (!ob.ok) {return ob;} Outcome os = checkSibling(); if (!os.ok) {return os;}}
     if (op.kind == 3) {
       // the copy constructor must carry the whole window over: the history continues on the copy
       SIM_COUNT("op.copy_construct");
       if (!win.empty() && win.size() < W) {SIM_PROBE("copy_while_window_partly_full");}
       if (sinceReset > W) {SIM_PROBE("copy_after_wrap");}
-      if (variance) {var = new romea::core::OnlineVariance(*var); avg.reset(var);} else {avg.reset(new romea::core::OnlineAverage(*avg));}
+      {
+        // the original stays alive as a sibling: feeding the copy must not change what the original reports
+        sibAvg = avg->getAverage(); sibAvail = avg->isAvailable(); sibVar = variance ? var->getVariance() : 0; haveSibling = true;
+        if (variance) {romea::core::OnlineVariance * nv = new romea::core::OnlineVariance(*var); sibling = std::move(avg); siblingVar = var; var = nv; avg.reset(nv);} else {
+          romea::core::OnlineAverage * na = new romea::core::OnlineAverage(*avg); sibling = std::move(avg); avg.reset(na);
+        }
+      }
       ++c.steps; c.note(fmt("#%llu continue on a copy", (unsigned long long)opNo));
       if (avg->getWindowSize() != W) {return Outcome::fail("window-size-mismatch", fmt("after op #%llu (copy): getWindowSize()=%zu, configured %zu", (unsigned long long)opNo, avg->getWindowSize(), W));}
       Outcome o = observe("copy"); if (!o.ok) {return o;}
@@ -211,7 +230,8 @@ template<class Vec>
 Outcome runRing(const Plan & p, Ctx & c)
 {
   const size_t cap = (size_t)p.W;
-  romea::core::RingOfEigenVector<Vec> ring(cap);
+  std::unique_ptr<romea::core::RingOfEigenVector<Vec>> ringPtr(new romea::core::RingOfEigenVector<Vec>(cap));
+#define ring (*ringPtr)
   std::deque<double> model;  // first component of the last `cap` appended items, newest first
   uint64_t opNo = 0, sinceClear = 0; bool everCleared = false;
   const bool pow2 = (cap & (cap - 1)) == 0;
@@ -241,6 +261,18 @@ Outcome runRing(const Plan & p, Ctx & c)
     if (op.kind == 3) {
       // the ring's storage as a plain vector: same items, storage order is not part of the statement
       if (ring.get().size() != model.size()) {return Outcome::fail("ring-size-mismatch", fmt("after op #%llu: get().size()=%zu, expected %zu", (unsigned long long)opNo, ring.get().size(), model.size()));}
+      // continue on a copy: either copy-constructed, or copy-assigned onto another ring object of a different capacity
+      // that already holds items (the copy is a ring of THIS capacity holding THESE items)
+      if ((opNo & 1) == 0) {
+        romea::core::RingOfEigenVector<Vec> * copy = new romea::core::RingOfEigenVector<Vec>(ring); ringPtr.reset(copy); SIM_PROBE("ring_continue_on_copy_constructed");
+      } else {
+        size_t otherCap = cap <= 8 ? cap + 5 : cap - 7;
+        romea::core::RingOfEigenVector<Vec> * other = new romea::core::RingOfEigenVector<Vec>(otherCap);
+        for (size_t k = 0; k < otherCap + 2; ++k) {other->append(make(-1000.0 - (double)k));}
+        *other = ring; ringPtr.reset(other); SIM_PROBE("ring_continue_on_copy_assigned_over_other_capacity");
+      }
+      ++c.steps; c.note(fmt("#%llu continue on a copy of the ring", (unsigned long long)opNo));
+      Outcome o = observe("copy"); if (!o.ok) {return o;}
       continue;
     }
     if (op.kind == 1) {
@@ -270,6 +302,7 @@ Outcome runRing(const Plan & p, Ctx & c)
     }
   }
   return Outcome::pass();
+#undef ring
 }
 
 }  // namespace
@@ -387,7 +420,7 @@ struct PropC16
         if (r.chance(0.2)) {p.ops.push_back(R());}
         continue;
       }
-      if (r.chance(pCopy)) {p.ops.push_back(C());}
+      if (r.chance(pCopy)) {p.ops.push_back(C()); if (!stats && r.chance(0.5)) {p.ops.push_back(C());}}
       if (stats) {p.ops.push_back(U(drawValue(r, regime, precision, exact, k, c0, c1)));} else {
         p.ops.push_back(U((double)item++));
       }
@@ -536,7 +569,7 @@ struct PropC16
     return {"reset_before_any_data", "reset_while_window_partly_full", "reset_after_wrap_mid_window",
       "reset_exactly_at_window_boundary", "reset_twice_in_a_row", "window_wrapped_again_after_reset",
       "ten_windows_of_data", "long_run_10000_windows", "variance_scale_factor_squared_exceeds_32_bits",
-      "copy_while_window_partly_full", "copy_after_wrap", "clear_with_ring_index_mid_ring", "clear_of_empty_ring", "ring_capacity_not_power_of_two_wrapped",
+      "copy_while_window_partly_full", "copy_after_wrap", "original_checked_after_its_copy_was_fed", "ring_continue_on_copy_constructed", "ring_continue_on_copy_assigned_over_other_capacity", "clear_with_ring_index_mid_ring", "clear_of_empty_ring", "ring_capacity_not_power_of_two_wrapped",
       "ring_wrapped_again_after_clear"};
   }
   Json describe() const
